@@ -28,6 +28,10 @@ T0_MS = 1_700_000_000_000          # wall-clock value of spec clock 0 (ms)
 CP, NAME, GENERIC, PARAMS_DIGEST = 0x68, 0x07, 0x08, 0x02
 INTEREST, DATA, LP = 0x05, 0x06, 0x64
 
+# Nack reason codes: the assigned ones (0, 50, 100, 150), their neighbours, and large / unassigned values
+NACK_REASONS = [150, 0, 1, 49, 50, 51, 100, 151, 255, 256, 1000, 65536, 2 ** 32, 2 ** 64 - 1]
+# payload lengths of the "long" prefix: with them the command name crosses 253 bytes before / after the digest component
+LONG_LENS = list(range(150, 265, 5)) + [181, 182, 183, 184, 214, 215, 216, 217, 218, 219]
 STATUS = {'r200': 200, 'r400': 400, 'r403': 403, 'r503': 503}
 GARBAGE = b'\xde\xad\xbe\xef\x00garbage'
 
@@ -283,8 +287,12 @@ def make_reply(kind, body, cmd, interest_wire, garbage=GARBAGE):
 class Scenario:
     """One front-end instance under a scripted wall clock. Stimuli mirror the Env actions of NfdReg.tla."""
 
-    def __init__(self, front, routes=(), ncalls=8):
+    def __init__(self, front, routes=(), ncalls=8, long_len=200, variant=0):
+        """long_len: payload length of the one-component prefix the spec calls "long"; variant: where the Nack
+        reasons start in NACK_REASONS (successive Nacks of a scenario use successive reasons)."""
         self.front = front
+        self.long_prefix = '/L' + 'x' * (long_len - 1)
+        self.nacks = variant
         self.sess = Session()
         self.sess.__enter__()
         self.clock = 0                    # spec clock (ms since T0)
@@ -368,7 +376,8 @@ class Scenario:
         self._run(0)
 
     def call(self, c, verb, prefix, with_func=False, d=0):
-        name = '/' if prefix == 'root' else '/' + prefix      # the spec's prefix "root" is the empty name
+        # the spec's prefix "root" is the empty name, "long" a prefix that makes the command name cross 253 bytes
+        name = '/' if prefix == 'root' else self.long_prefix if prefix == 'long' else '/' + prefix
 
         async def go():
             try:
@@ -397,6 +406,9 @@ class Scenario:
         """answer the idx-th (0-based) command Interest on the wire."""
         cmd = self.cmds[idx]
         wire = make_reply(kind, body, cmd, cmd['wire'], garbage)
+        if kind == 'nack':
+            wire = nack_packet(cmd['wire'], NACK_REASONS[self.nacks % len(NACK_REASONS)])
+            self.nacks += 1
         if kind == 'silence':
             self.clock += 1
             self._run(d, advance=1.0)
@@ -419,7 +431,9 @@ class Scenario:
 
     # ---- projection
     def post(self):
-        return {'cmds': [{'v': c['verb'], 'p': c['prefix'][1:] or 'root', 'ts': c['ts']} for c in self.cmds],
+        def tok(p):
+            return 'root' if p == '/' else 'long' if p == self.long_prefix else p[1:]
+        return {'cmds': [{'v': c['verb'], 'p': tok(c['prefix']), 'ts': c['ts']} for c in self.cmds],
                 'res': [self.res.get(c, 'none') for c in range(1, self.ncalls + 1)]}
 
     def background_errors(self):
